@@ -5,9 +5,10 @@
 (* body item by item; every state of the body phase is a vector            *)
 (* (spec, body) with the model's implied type and decoded value.           *)
 (***************************************************************************)
-EXTENDS HclDec
+EXTENDS HclDec, SequencesExt
 
-CONSTANTS MaxSpecD, MaxItems
+CONSTANTS MaxSpecD, MaxItems,
+          NParts, Part   \* parallel enumeration: this run starts from the leaf specs of class Part (0-based) of NParts
 
 VARIABLES spec, sd, body, phase, pred, ity, jsonok
 
@@ -48,7 +49,8 @@ ItemKinds ==
 EmptyEnv == [x \in {} |-> Null(TDyn)]
 NoPred == R(Oom, FALSE)
 
-Init == /\ spec \in LeafSpecs /\ sd = 0 /\ body = <<>> /\ phase = "spec" /\ pred = NoPred /\ ity = TDyn /\ jsonok = TRUE
+LeafSeq == SetToSeq(LeafSpecs)
+Init == /\ (\E i \in 1..Len(LeafSeq) : i % NParts = Part /\ spec = LeafSeq[i]) /\ sd = 0 /\ body = <<>> /\ phase = "spec" /\ pred = NoPred /\ ity = TDyn /\ jsonok = TRUE
 
 Wrap == /\ phase = "spec" /\ sd < MaxSpecD
         /\ spec' \in WrapSpec(spec)
